@@ -5,40 +5,167 @@ set_option linter.unusedSimpArgs false
 
 theorem fin_runs_le {s : St} : (if s.kind = Kind.user then 1 else 0) ≤ 1 := by split <;> omega
 
-theorem step_ok_flush (scripts : List Script) (s : St) (hg : Good s) (b : Nat) :
-    specStep s (observe scripts s (.flush b)).2 = none := by
-  simp only [observe, step]
-  cases e : s.batches[b]? with
-  | none => exact specStep_noop hg (by simp [opClause, batches_none e])
-  | some B =>
-    have ⟨hb, hbo, _⟩ := batches_some e
-    have hnb : ¬ s.batches.length ≤ b := by omega
-    simp only
-    cases hB : B.out with
-    | some o =>
-      have hp : (s.bout b).isSome := by rw [hbo, hB]; rfl
-      simp only [Option.isSome_some, if_true]
-      exact specStep_noop hg (by simp [opClause, hnb, hp])
-    | none =>
-      have hp : s.bout b = none := by rw [hbo, hB]
-      simp only [Option.isSome_none, Bool.false_eq_true, if_false]
-      obtain ⟨o, f⟩ := compute_fin scripts hg hb hp
-      have hout := out_of_fin f
-      refine specStep_none ?_ ?_ (ann_of_fin f) (ext_clearUnlessKept _ b (ext_of_fin f))
-        (good_clearUnlessKept _ b (good_of_fin f fin_runs_le) (by simp [hout]))
-      · have hr := f.2
-        simp only [opClause, hnb, hp, if_false, Option.isSome_none, Bool.false_eq_true, clearUnlessKept_bout, hout,
-          clearUnlessKept_runs, hr, ne_eq, not_true_eq_false, Option.isNone_some]
-        split <;> simp_all
-      · intro ev hev
-        simp only [evClause_clearUnlessKept]
-        exact evClause_of_fin hg f ev hev
+/-! ### what the log of a finishing operation contains -/
 
-theorem step_ok_cancel (scripts : List Script) (s : St) (hg : Good s) (b : Nat) (x : Option Nat) :
-    specStep s (observe scripts s (.cancel b x)).2 = none := by
+theorem filter_isBody_nil (l : List Ev) (h : ∀ ev ∈ l, ev.isBody = false) : l.filter Ev.isBody = [] := by
+  rw [List.filter_eq_nil_iff]; intro ev hev; simp [h ev hev]
+
+theorem filterMap_bodyEnd_nil (l : List Ev) (h : ∀ ev ∈ l, ev.bodyEnd? = none) : l.filterMap Ev.bodyEnd? = [] := by
+  rw [List.filterMap_eq_nil_iff]; exact h
+
+theorem any_isBodyEv_false (l : List Ev) (h : ∀ ev ∈ l, ev.isBodyEv = false) : l.any Ev.isBodyEv = false := by
+  rw [List.any_eq_false]; intro ev hev; simp [h ev hev]
+
+theorem plain_isBody {ev : Ev} (h : ev.isPlain = true) : ev.isBody = false := by
+  cases ev <;> simp_all [Ev.isPlain, Ev.isBody]
+theorem plain_bodyEnd {ev : Ev} (h : ev.isPlain = true) : ev.bodyEnd? = none := by
+  cases ev <;> simp_all [Ev.isPlain, Ev.bodyEnd?]
+theorem plain_isBodyEv {ev : Ev} (h : ev.isPlain = true) : ev.isBodyEv = false := by
+  cases ev <;> simp_all [Ev.isPlain, Ev.isBodyEv]
+
+theorem bodyPart_noann {k : Kind} {a b0 : Nat} {o : Outc} {e0 : List Ev} (h : BodyPart k a b0 o e0) :
+    ∀ ev ∈ e0, ev.isAnnounce = false := by
+  cases k with
+  | user =>
+    obtain ⟨e1, r, he, hp, _⟩ := h
+    subst he
+    intro ev hev
+    simp only [List.mem_cons, List.mem_append, List.not_mem_nil, or_false] at hev
+    rcases hev with hev | hev | hev
+    · subst hev; rfl
+    · exact isPlain_not_announce (hp ev hev)
+    · subst hev; rfl
+  | debug => exact plain_noann h.1
+
+theorem fin_unpack {s0 b0 o n e0 r} (h : Fin s0 b0 o n e0 r) :
+    ∃ a L, Mid s0 b0 a r.1 ∧ r.1.bout b0 = some o ∧ r.2 = e0 ++ (L ++ [.announce b0 [] a]) ∧
+      (∀ ev ∈ L, ev.isPlain = true) ∧ Law s0 r.1 r.2 ∧ r.1.runs b0 = n := by
+  obtain ⟨⟨a, m, hout, _, _, ⟨L, hL, hp, _⟩, hl⟩, hr⟩ := h
+  exact ⟨a, L, m, hout, hL, hp, hl, hr⟩
+
+/-- the clause about the batch that has to be flushed -/
+theorem fateClause_flushed {rx : Bool} {pre : St} {ob : Obs} {b : Nat} {clear : Bool} {a : Nat} {o : Outc}
+    {e0 L : List Ev} (hf : fate pre ob.op = .flushed b clear)
+    (hout : ob.post.bout b = some o) (hslot : slotOk pre ob.post (some b) = true)
+    (hbi : ob.post.bitems b = if clear && !pre.keep then [] else pre.bitems b)
+    (hact : ob.post.active = a) (hruns : ob.post.runs b = if pre.kind = .user then 1 else 0)
+    (hevs : ob.evs = e0 ++ (L ++ [.announce b [] a])) (hL : ∀ ev ∈ L, ev.isPlain = true)
+    (hbp : BodyPart pre.kind a b o e0) : fateClause rx pre ob = none := by
+  unfold fateClause
+  rw [firstFail_none]
+  unfold fateChecks
+  simp only [hf, List.mem_append, List.mem_cons, List.not_mem_nil, or_false]
+  intro x hx
+  rcases hx with (hx | hx | hx) | hx
+  · subst hx; simp [hout]
+  · subst hx; exact hslot
+  · subst hx; simp [hbi]
+  · unfold bodyChecks at hx
+    cases hk : pre.kind with
+    | user =>
+      rw [hk] at hbp hruns
+      simp only [hk, List.mem_cons, List.not_mem_nil, or_false] at hx
+      obtain ⟨e1, r, he0, hp1, ho⟩ := hbp
+      subst he0
+      have hb1 : (e1.filter Ev.isBody) = [] := filter_isBody_nil e1 (fun ev h => plain_isBody (hp1 ev h))
+      have hb2 : (L.filter Ev.isBody) = [] := filter_isBody_nil L (fun ev h => plain_isBody (hL ev h))
+      have hm1 : e1.filterMap Ev.bodyEnd? = [] := filterMap_bodyEnd_nil e1 (fun ev h => plain_bodyEnd (hp1 ev h))
+      have hm2 : L.filterMap Ev.bodyEnd? = [] := filterMap_bodyEnd_nil L (fun ev h => plain_bodyEnd (hL ev h))
+      rcases hx with hx | hx | hx | hx
+      · subst hx; simp [hruns]
+      · subst hx; simp [hevs, hact]
+      · subst hx
+        simp [hevs, List.filter_append, hb1, hb2, Ev.isBody, List.filter]
+      · subst hx
+        simp [hevs, List.filterMap_append, hm1, hm2, Ev.bodyEnd?, List.filterMap, ho, hout]
+    | debug =>
+      rw [hk] at hbp
+      simp only [hk, List.mem_cons, List.not_mem_nil, or_false] at hx
+      obtain ⟨hp0, ho⟩ := hbp
+      have hany : ob.evs.any Ev.isBodyEv = false := by
+        rw [hevs]
+        apply any_isBodyEv_false
+        intro ev hev
+        simp only [List.mem_append, List.mem_singleton] at hev
+        rcases hev with hev | hev | hev
+        · exact plain_isBodyEv (hp0 ev hev)
+        · exact plain_isBodyEv (hL ev hev)
+        · subst hev; rfl
+      rcases hx with hx | hx
+      · subst hx; simp [hany]
+      · subst hx
+        rcases ho with ho | ho <;> simp [hout, ho]
+
+/-- the clause about the batch that has to be cancelled -/
+theorem fateClause_cancelled {rx : Bool} {pre : St} {ob : Obs} {b : Nat} {x : Err} {a : Nat} {L : List Ev}
+    (hf : fate pre ob.op = .cancelled b x) (hout : ob.post.bout b = some (.err x)) (hruns : ob.post.runs b = 0)
+    (hslot : slotOk pre ob.post (some b) = true) (hbi : ob.post.bitems b = pre.bitems b)
+    (hevs : ob.evs = L ++ [.announce b [] a]) (hL : ∀ ev ∈ L, ev.isPlain = true) : fateClause rx pre ob = none := by
+  have hany : ob.evs.any Ev.isBodyEv = false := by
+    rw [hevs]
+    apply any_isBodyEv_false
+    intro ev hev
+    simp only [List.mem_append, List.mem_singleton] at hev
+    rcases hev with hev | hev
+    · exact plain_isBodyEv (hL ev hev)
+    · subst hev; rfl
+  simp [fateClause, fateChecks, firstFail, hf, hout, hruns, hslot, hbi, hany]
+
+/-- everything the observer wants of an operation that ran `_compute` of the pending batch `b` of a good snapshot;
+    `kp = some k`: the operation went through `flush()`, which clears the item list unless `k` -/
+theorem compute_ok {rx : Bool} (scripts : List Script) {s : St} (hg : Good s) {b : Nat} (hb : b < s.batches.length)
+    (hp : s.bout b = none) (op : Op) (res : Res) (clear : Bool) (post : St)
+    (hpost : post = if clear then (compute scripts s b).1.clearUnlessKept s.keep b else (compute scripts s b).1)
+    (hf : fate s op = .flushed b clear)
+    (h1 : opClause s ⟨op, res, (compute scripts s b).2, post⟩ = none) :
+    specStep rx s ⟨op, res, (compute scripts s b).2, post⟩ = none := by
+  obtain ⟨o, e0, f, hbp⟩ := compute_fin scripts hg hb hp
+  obtain ⟨a, L, m, hout, hL, hpl, hl, hr⟩ := fin_unpack f
+  have hn0 := bodyPart_noann hbp
+  obtain ⟨a', m', hs⟩ := logShape_of_fin f hn0
+  have ha' : a' = a := by rw [m'.aeq, m.aeq]
+  subst ha'
+  have hgood := good_of_fin f fin_runs_le
+  have hE := ext_of_fin f
+  have hcnt := counts_of_fin m hout hl hs
+  have hslot := slot_of_mid m
+  have haeq : (switch s b).active = a' := m.aeq.symm
+  rw [haeq] at hbp
+  cases clear with
+  | true =>
+    simp only [if_true] at hpost
+    subst hpost
+    refine specStep_none h1 ?_ ?_ (ann_of_shape hs) ?_ (counts_clearUnlessKept _ _ hcnt) (ext_clearUnlessKept _ b hE)
+      (good_clearUnlessKept _ b hgood (by simp [hout]))
+    · refine fateClause_flushed hf (o := o) (by simpa using hout) (by simpa [slot_clearUnlessKept] using hslot) ?_
+        (by simpa using m.act) (by simpa using hr) hL hpl hbp
+      simp only [clearUnlessKept_bitems, m.bi0]
+      cases s.keep <;> simp
+    · intro ev hev
+      simp only [hf, Fate.bodyRuns, evClause_clearUnlessKept]
+      exact evClause_of_fin hg f ev hev
+    · rw [after_clearUnlessKept]; exact after_of_shape _ hs
+  | false =>
+    simp only [Bool.false_eq_true, if_false] at hpost
+    subst hpost
+    refine specStep_none h1 ?_ ?_ (ann_of_shape hs) (after_of_shape _ hs) hcnt hE hgood
+    · exact fateClause_flushed hf (o := o) hout hslot (by simpa using m.bi0) m.act hr hL hpl hbp
+    · intro ev hev
+      simp only [hf, Fate.bodyRuns]
+      exact evClause_of_fin hg f ev hev
+
+theorem fate_flush {s : St} {b : Nat} (hb : b < s.batches.length) (hp : s.bout b = none) :
+    fate s (.flush b) = .flushed b true := by simp [fate, St.pendingBatch, hb, hp]
+
+theorem step_ok_flush {rx : Bool} (scripts : List Script) (s : St) (hg : Good s) (b : Nat) :
+    specStep rx s (observe scripts s (.flush b)).2 = none := by
   simp only [observe, step]
   cases e : s.batches[b]? with
-  | none => exact specStep_noop hg (by simp [opClause, batches_none e])
+  | none =>
+    have hq : fate s (.flush b) = .quiet := by
+      have : ¬ b < s.batches.length := by have := batches_none e; omega
+      simp [fate, St.pendingBatch, this]
+    exact specStep_noop hg hq (by simp [opClause, batches_none e])
   | some B =>
     have ⟨hb, hbo, _⟩ := batches_some e
     have hnb : ¬ s.batches.length ≤ b := by omega
@@ -46,22 +173,62 @@ theorem step_ok_cancel (scripts : List Script) (s : St) (hg : Good s) (b : Nat) 
     cases hB : B.out with
     | some o =>
       have hp : (s.bout b).isSome := by rw [hbo, hB]; rfl
+      have hq : fate s (.flush b) = .quiet := by
+        have : ¬ s.bout b = none := by intro h; rw [h] at hp; cases hp
+        simp [fate, St.pendingBatch, this]
       simp only [Option.isSome_some, if_true]
-      exact specStep_noop hg (by simp [opClause, hnb, hp])
+      exact specStep_noop hg hq (by simp [opClause, hnb, hp])
     | none =>
       have hp : s.bout b = none := by rw [hbo, hB]
       simp only [Option.isSome_none, Bool.false_eq_true, if_false]
+      exact compute_ok scripts hg hb hp _ _ true _ rfl (fate_flush hb hp) (by simp [opClause, hnb, hp])
+
+theorem step_ok_cancel {rx : Bool} (scripts : List Script) (s : St) (hg : Good s) (b : Nat) (x : Option Nat) :
+    specStep rx s (observe scripts s (.cancel b x)).2 = none := by
+  simp only [observe, step]
+  cases e : s.batches[b]? with
+  | none =>
+    have hq : fate s (.cancel b x) = .quiet := by
+      have : ¬ b < s.batches.length := by have := batches_none e; omega
+      simp [fate, St.pendingBatch, this]
+    exact specStep_noop hg hq (by simp [opClause, batches_none e])
+  | some B =>
+    have ⟨hb, hbo, _⟩ := batches_some e
+    have hnb : ¬ s.batches.length ≤ b := by omega
+    simp only
+    cases hB : B.out with
+    | some o =>
+      have hp : (s.bout b).isSome := by rw [hbo, hB]; rfl
+      have hq : fate s (.cancel b x) = .quiet := by
+        have : ¬ s.bout b = none := by intro h; rw [h] at hp; cases hp
+        simp [fate, St.pendingBatch, this]
+      simp only [Option.isSome_some, if_true]
+      exact specStep_noop hg hq (by simp [opClause, hnb, hp])
+    | none =>
+      have hp : s.bout b = none := by rw [hbo, hB]
+      simp only [Option.isSome_none, Bool.false_eq_true, if_false]
+      have hf : fate s (.cancel b x) = .cancelled b (errOfCancel x) := by simp [fate, St.pendingBatch, hb, hp]
       have f := cancel_fin (errOfCancel x) hg hb hp
-      have hout := out_of_fin f
-      refine specStep_none ?_ (evClause_of_fin hg f) (ann_of_fin f) (ext_of_fin f) (good_of_fin f (by omega))
-      have hr := f.2
-      simp [opClause, hnb, hp, hout, hr]
+      obtain ⟨a, L, m, hout, hL, hpl, hl, hr⟩ := fin_unpack f
+      obtain ⟨a', m', hs⟩ := logShape_of_fin f (by simp)
+      have ha' : a' = a := by rw [m'.aeq, m.aeq]
+      subst ha'
+      refine specStep_none (by simp [opClause, hnb, hp]) ?_ ?_ (ann_of_shape hs) (after_of_shape _ hs)
+        (counts_of_fin m hout hl hs) (ext_of_fin f) (good_of_fin f (by omega))
+      · exact fateClause_cancelled hf hout hr (slot_of_mid m) m.bi0 (by simpa using hL) hpl
+      · intro ev hev
+        simp only [hf, Fate.bodyRuns]
+        exact evClause_of_fin_cancel hg f ev hev
 
-theorem step_ok_batchValue (scripts : List Script) (s : St) (hg : Good s) (b : Nat) :
-    specStep s (observe scripts s (.batchValue b)).2 = none := by
+theorem step_ok_batchValue {rx : Bool} (scripts : List Script) (s : St) (hg : Good s) (b : Nat) :
+    specStep rx s (observe scripts s (.batchValue b)).2 = none := by
   simp only [observe, step]
   cases e : s.batches[b]? with
-  | none => exact specStep_noop hg (by simp [opClause, batches_none e])
+  | none =>
+    have hq : fate s (.batchValue b) = .quiet := by
+      have : ¬ b < s.batches.length := by have := batches_none e; omega
+      simp [fate, St.pendingBatch, this]
+    exact specStep_noop hg hq (by simp [opClause, batches_none e])
   | some B =>
     have ⟨hb, hbo, _⟩ := batches_some e
     have hnb : ¬ s.batches.length ≤ b := by omega
@@ -69,21 +236,26 @@ theorem step_ok_batchValue (scripts : List Script) (s : St) (hg : Good s) (b : N
     cases hB : B.out with
     | some o =>
       have hp : s.bout b = some o := by rw [hbo, hB]
+      have hq : fate s (.batchValue b) = .quiet := by simp [fate, St.pendingBatch, hp]
       simp only [Option.isSome_some, if_true]
-      exact specStep_noop hg (by simp [opClause, hnb, hp])
+      exact specStep_noop hg hq (by simp [opClause, hnb, hp])
     | none =>
       have hp : s.bout b = none := by rw [hbo, hB]
       simp only [Option.isSome_none, Bool.false_eq_true, if_false]
-      obtain ⟨o, f⟩ := compute_fin scripts hg hb hp
+      have hf : fate s (.batchValue b) = .flushed b false := by simp [fate, St.pendingBatch, hb, hp]
+      obtain ⟨o, e0, f, _⟩ := compute_fin scripts hg hb hp
       have hout := out_of_fin f
-      refine specStep_none ?_ (evClause_of_fin hg f) (ann_of_fin f) (ext_of_fin f) (good_of_fin f fin_runs_le)
-      simp [opClause, hnb, hp, hout]
+      exact compute_ok scripts hg hb hp _ _ false _ rfl hf (by simp [opClause, hnb, hp, hout])
 
-theorem step_ok_batchError (scripts : List Script) (s : St) (hg : Good s) (b : Nat) :
-    specStep s (observe scripts s (.batchError b)).2 = none := by
+theorem step_ok_batchError {rx : Bool} (scripts : List Script) (s : St) (hg : Good s) (b : Nat) :
+    specStep rx s (observe scripts s (.batchError b)).2 = none := by
   simp only [observe, step]
   cases e : s.batches[b]? with
-  | none => exact specStep_noop hg (by simp [opClause, batches_none e])
+  | none =>
+    have hq : fate s (.batchError b) = .quiet := by
+      have : ¬ b < s.batches.length := by have := batches_none e; omega
+      simp [fate, St.pendingBatch, this]
+    exact specStep_noop hg hq (by simp [opClause, batches_none e])
   | some B =>
     have ⟨hb, hbo, _⟩ := batches_some e
     have hnb : ¬ s.batches.length ≤ b := by omega
@@ -91,21 +263,27 @@ theorem step_ok_batchError (scripts : List Script) (s : St) (hg : Good s) (b : N
     cases hB : B.out with
     | some o =>
       have hp : s.bout b = some o := by rw [hbo, hB]
+      have hq : fate s (.batchError b) = .quiet := by simp [fate, St.pendingBatch, hp]
       simp only [Option.isSome_some, if_true]
-      exact specStep_noop hg (by simp [opClause, hnb, hp])
+      exact specStep_noop hg hq (by simp [opClause, hnb, hp])
     | none =>
       have hp : s.bout b = none := by rw [hbo, hB]
       simp only [Option.isSome_none, Bool.false_eq_true, if_false]
-      obtain ⟨o, f⟩ := compute_fin scripts hg hb hp
+      have hf : fate s (.batchError b) = .flushed b false := by simp [fate, St.pendingBatch, hb, hp]
+      obtain ⟨o, e0, f, _⟩ := compute_fin scripts hg hb hp
       have hout := out_of_fin f
-      refine specStep_none ?_ (evClause_of_fin hg f) (ann_of_fin f) (ext_of_fin f) (good_of_fin f fin_runs_le)
-      simp [opClause, hnb, hp, hout]
+      exact compute_ok scripts hg hb hp _ _ false _ rfl hf (by simp [opClause, hnb, hp, hout])
 
-theorem step_ok_itemValue (scripts : List Script) (s : St) (hg : Good s) (i : Nat) :
-    specStep s (observe scripts s (.itemValue i)).2 = none := by
+theorem step_ok_itemValue {rx : Bool} (scripts : List Script) (s : St) (hg : Good s) (i : Nat) :
+    specStep rx s (observe scripts s (.itemValue i)).2 = none := by
   simp only [observe, step]
   cases e : s.items[i]? with
-  | none => exact specStep_noop hg (by simp [opClause, List.getElem?_eq_none_iff.mp e])
+  | none =>
+    have hni : s.items.length ≤ i := List.getElem?_eq_none_iff.mp e
+    have hq : fate s (.itemValue i) = .quiet := by
+      have : ¬ i < s.items.length := by omega
+      simp [fate, this]
+    exact specStep_noop hg hq (by simp [opClause, hni])
   | some it =>
     have ⟨hi, hio, hib⟩ := items_some e
     have hni : ¬ s.items.length ≤ i := by omega
@@ -114,8 +292,9 @@ theorem step_ok_itemValue (scripts : List Script) (s : St) (hg : Good s) (i : Na
     cases hO : it.out with
     | some o =>
       have hp : s.iout i = some o := by rw [hio, hO]
+      have hq : fate s (.itemValue i) = .quiet := by simp [fate, hp]
       simp only [Option.isSome_some, if_true]
-      exact specStep_noop hg (by simp [opClause, hni, hp])
+      exact specStep_noop hg hq (by simp [opClause, hni, hp])
     | none =>
       have hp : s.iout i = none := by rw [hio, hO]
       have hbp : s.bout it.batch = none := by
@@ -126,7 +305,9 @@ theorem step_ok_itemValue (scripts : List Script) (s : St) (hg : Good s) (i : Na
           rw [hp] at this; cases this
       simp only [Option.isSome_none, Bool.false_eq_true, if_false, hbp]
       rw [hib] at gb
-      obtain ⟨o, f⟩ := compute_fin scripts hg gb hbp
+      have hf : fate s (.itemValue i) = .flushed it.batch true := by
+        simp [fate, St.pendingBatch, hi, hp, hib, gb, hbp]
+      obtain ⟨o, e0, f, _⟩ := compute_fin scripts hg gb hbp
       have hout := out_of_fin f
       have hE := ext_of_fin f
       have hib' : (compute scripts s it.batch).1.ibatch i = it.batch := by
@@ -134,18 +315,14 @@ theorem step_ok_itemValue (scripts : List Script) (s : St) (hg : Good s) (i : Na
       have hsome : ((compute scripts s it.batch).1.iout i).isSome := by
         obtain ⟨⟨a, fa⟩, _⟩ := f
         exact fa.all i (by have := hE.2.2.1; omega) hib'
-      refine specStep_none ?_ ?_ (ann_of_fin f) (ext_clearUnlessKept _ _ hE)
-        (good_clearUnlessKept _ _ (good_of_fin f fin_runs_le) (by simp [hout]))
-      · cases hv : (compute scripts s it.batch).1.iout i with
-        | none => rw [hv] at hsome; cases hsome
-        | some v => simp [opClause, hni, hp, hv, hib', hout]
-      · intro ev hev
-        simp only [evClause_clearUnlessKept]
-        exact evClause_of_fin hg f ev hev
+      refine compute_ok scripts hg gb hbp _ _ true _ rfl hf ?_
+      cases hv : (compute scripts s it.batch).1.iout i with
+      | none => rw [hv] at hsome; cases hsome
+      | some v => simp [opClause, hni, hp, hv, hib', hout]
 
 /-- every operation from a good snapshot is accepted by the observer (and leads to a good snapshot) -/
-theorem step_ok (scripts : List Script) (s : St) (hg : Good s) (op : Op) :
-    specStep s (observe scripts s op).2 = none := by
+theorem step_ok {rx : Bool} (scripts : List Script) (s : St) (hg : Good s) (op : Op) :
+    specStep rx s (observe scripts s op).2 = none := by
   cases op with
   | add p sp lk => exact step_ok_add scripts s hg p sp lk
   | addTo b p => exact step_ok_addTo scripts s hg b p
@@ -159,48 +336,12 @@ theorem step_ok (scripts : List Script) (s : St) (hg : Good s) (op : Op) :
   | isEmpty b => exact step_ok_isEmpty scripts s hg b
   | itemComputed i => exact step_ok_itemComputed scripts s hg i
 
-theorem good_of_specStep {pre : St} {ob : Obs} (h : specStep pre ob = none) : Good ob.post := by
-  unfold specStep at h
-  split at h
-  · cases h
-  · split at h
-    · cases h
-    · split at h
-      · cases h
-      · split at h
-        · cases h
-        · split at h
-          · cases h
-          · rename_i hgood; simpa using hgood
-
-theorem observe_post (scripts : List Script) (s : St) (op : Op) :
-    (observe scripts s op).2.post = (observe scripts s op).1 := rfl
-
-theorem good_init (k : Kind) (keep : Bool := false) : Good (init k keep) := by
-  cases k <;> cases keep <;> decide
-
-theorem watchRun_ok (scripts : List Script) (ops : List Op) :
-    ∀ s, Good s → watchRun s (run scripts s ops) = none := by
-  induction ops with
-  | nil => intro s _; rfl
-  | cons op ops ih =>
-    intro s hg
-    have h := step_ok scripts s hg op
-    simp only [run, watchRun, h]
-    exact ih _ (good_of_specStep h)
-
-theorem good_final (scripts : List Script) (ops : List Op) :
-    ∀ s, Good s → Good (finalState scripts s ops) := by
-  induction ops with
-  | nil => intro s h; exact h
-  | cons op ops ih =>
-    intro s hg
-    exact ih _ (good_of_specStep (step_ok scripts s hg op))
-
 /-- what an accepted observation says, clause by clause -/
-theorem specStep_unpack {pre : St} {ob : Obs} (h : specStep pre ob = none) :
-    opClause pre ob = none ∧ (∀ ev ∈ ob.evs, evClause pre ob.post ev = none) ∧
-    (ob.evs.filter Ev.isAnnounce).length ≤ 1 ∧ Ext pre ob.post ∧ Good ob.post := by
+theorem specStep_unpack {rx : Bool} {pre : St} {ob : Obs} (h : specStep rx pre ob = none) :
+    opClause pre ob = none ∧ fateClause rx pre ob = none ∧
+    (∀ ev ∈ ob.evs, evClause (fate pre ob.op).bodyRuns pre ob.post ev = none) ∧
+    (ob.evs.filter Ev.isAnnounce).length ≤ 1 ∧ afterAnnounceOk ob.post ob.evs = true ∧
+    CountsOk pre ob.post ob.evs ∧ Ext pre ob.post ∧ Good ob.post := by
   unfold specStep at h
   split at h
   · cases h
@@ -210,13 +351,50 @@ theorem specStep_unpack {pre : St} {ob : Obs} (h : specStep pre ob = none) :
     · rename_i h2
       split at h
       · cases h
-      · rename_i h3
+      · rename_i hf
         split at h
         · cases h
-        · rename_i h4
+        · rename_i h3
           split at h
           · cases h
-          · rename_i h5
-            exact ⟨h1, List.findSome?_eq_none_iff.mp h2, by omega, by simpa using h4, by simpa using h5⟩
+          · rename_i ha
+            split at h
+            · cases h
+            · rename_i hc
+              split at h
+              · cases h
+              · rename_i h4
+                split at h
+                · cases h
+                · rename_i h5
+                  exact ⟨h1, hf, List.findSome?_eq_none_iff.mp h2, by omega, by simpa using ha, by simpa using hc,
+                    by simpa using h4, by simpa using h5⟩
+
+theorem good_of_specStep {rx : Bool} {pre : St} {ob : Obs} (h : specStep rx pre ob = none) : Good ob.post :=
+  (specStep_unpack h).2.2.2.2.2.2.2
+
+theorem observe_post (scripts : List Script) (s : St) (op : Op) :
+    (observe scripts s op).2.post = (observe scripts s op).1 := rfl
+
+theorem good_init (k : Kind) (keep : Bool := false) : Good (init k keep) := by
+  cases k <;> cases keep <;> decide
+
+theorem watchRun_ok {rx : Bool} (scripts : List Script) (ops : List Op) :
+    ∀ s, Good s → watchRun rx s (run scripts s ops) = none := by
+  induction ops with
+  | nil => intro s _; rfl
+  | cons op ops ih =>
+    intro s hg
+    have h := step_ok (rx := rx) scripts s hg op
+    simp only [run, watchRun, h]
+    exact ih _ (good_of_specStep h)
+
+theorem good_final (scripts : List Script) (ops : List Op) :
+    ∀ s, Good s → Good (finalState scripts s ops) := by
+  induction ops with
+  | nil => intro s h; exact h
+  | cons op ops ih =>
+    intro s hg
+    exact ih _ (good_of_specStep (step_ok (rx := false) scripts s hg op))
 
 end AsynqModel.Batching
